@@ -168,7 +168,7 @@ def terminal_cause(obs):
         if c["api"] in ("abort", "stop", "halt") and c["outcome"] == "ret":
             ev.append((c["steps"], 1, c["api"], c))
     for kind, n, step, section, _inflight in interruptions(obs):
-        if section in ("cleared", "none"):
+        if section == "cleared":
             ev.append((step, 0, "failed-pause", dict(kind=kind, nmsgs=n, step=step)))
     ev.sort(key=lambda x: (x[0], x[1]))
     return (ev[0][2], ev[0][3]) if ev else (None, None)
@@ -246,6 +246,14 @@ def c02_exit_status(obs, case=None):
     failed = last["api"] in ("call", "resume") and last["exc_type"] not in (None, "RunEngineInterrupted")
     if cause == "fault" and not failed and last["outcome"] == "ret":
         cause = None  # the plan handled / was not affected by the fault
+        fm = getattr(obs.lab, "fault_msg", None)
+        if obs.lab.fail_status is not None and fm is not None and obs.lab.fault_at[1] >= 1:
+            idx = next((i for i, m in enumerate(obs.msgs) if m is fm), None)
+            grp = fm.kwargs.get("group")
+            if idx is not None and grp is not None and idx >= obs.lab.fault_at[1] - 1:
+                waited = any(i > idx and m.command == "wait" and (m.kwargs.get("group") == grp or (m.args and m.args[0] == grp)) for i, m in enumerate(obs.msgs))
+                if waited:
+                    tags.append("failed-status-the-plan-waited-on-did-not-fail-the-run")
     if failed and cause != "fault":
         # an unhandled error other than the injected fault ended the call (e.g. the plan itself raised): same rule, 'fail' + reason
         cause, nd = "fault", last_ndocs_before(obs)
